@@ -599,6 +599,16 @@ pub fn run_c16(_args: &Args, tier: &str, seed: u64) -> Report {
             rep.violation(format!("C16:operation:missing:{code:#06x}"), format!("operation {code:#06x} ({}) is not recognised", reg::lookup(reg::OPERATIONS, code).map(|e| e.1).unwrap_or("?")), none());
         }
     }
+    // ---- every recognised status can be displayed (C02's "displaying whatever was returned" for the status symbol)
+    for code in 0..=0xffffu32 {
+        if let Some(sc) = StatusCode::from_u16(code as u16) {
+            match catch(|| format!("{sc} {sc:?}")) {
+                Ok(t) if t.len() >= 3 => {}
+                Ok(t) => rep.violation(format!("C16:status:display:{code:#06x}"), format!("status {code:#06x} displays as {t:?}"), none()),
+                Err(p) => rep.violation(format!("C16:status:display-panic:{code:#06x}"), format!("displaying status {code:#06x}: {p}"), none()),
+            }
+        }
+    }
     // ---- tags: all 256 bytes
     for b in 0..=255u32 {
         rep.eval();
@@ -1067,7 +1077,15 @@ pub(crate) fn c19_run_seq(rep: &mut Report, start: &Option<Model>, ops: &[(u8, S
             }
         }
         // into_groups consumes the container
-        let got: Vec<(u8, BTreeMap<String, MVal>)> = attrs.into_groups().iter().map(group_image).collect();
+        // ... and so do into_attributes() / into_value() (the consuming accessors must hand out the same content)
+        let got: Vec<(u8, BTreeMap<String, MVal>)> = attrs
+            .into_groups()
+            .into_iter()
+            .map(|g| {
+                let tag = g.tag() as u8;
+                (tag, g.into_attributes().into_iter().map(|(k, a)| (if k == a.name() { k.clone() } else { format!("{k}!={}", a.name()) }, mirror::from_ipp_value(&a.into_value()))).collect())
+            })
+            .collect();
         let want: Vec<(u8, BTreeMap<String, MVal>)> = model.groups.iter().map(|g| (g.0, g.1.iter().cloned().collect())).collect();
         if got != want {
             return Some(format!("into_groups(): {:?} expected {:?}", summarize(&got), summarize(&want)));
